@@ -40,6 +40,8 @@ fn server_received_a_message(
     sync_assets: &mut ResMut<SyncAssetTransfer>,
     cmd: &mut Commands,
 ) {
+    #[cfg(feature = "verif_hooks")]
+    crate::verif::tap_sender(client_id.raw());
     log_message_received(Who::Server, &msg);
     match msg {
         Message::EntitySpawn { id } => {
